@@ -41,6 +41,7 @@ class ExcFlow:
         include_assert: bool = True,
         max_chain: int = 6,
         dead_test: Optional[Callable[[FuncInfo, ast.AST], Optional[bool]]] = None,
+        implicit: Optional[Dict[str, Dict[int, List[FuncInfo]]]] = None,
     ) -> None:
         self.m = model
         self.r = resolver
@@ -50,6 +51,7 @@ class ExcFlow:
         self.include_assert = include_assert
         self.max_chain = max_chain
         self.dead_test = dead_test
+        self.implicit = implicit or {}
         self.esc: Dict[str, Dict[Tuple[str, str, str], Event]] = {}
         self.handled: Dict[str, List[Tuple[Event, str]]] = {}  # func -> (event, handler text) caught locally
 
@@ -143,6 +145,15 @@ class ExcFlow:
                         if len(ch) < self.max_chain:
                             ch = ch + (f.site(n),)
                         out.append(Event(ev.exc, ev.func, ev.construct, ev.site, ch))
+            # implicit calls performed by this node: property getter behind an attribute load, getattr(self, "prefix%s") reflection
+            for g in self.implicit.get(f.qualname, {}).get(id(n), []):
+                if self.scope is not None and g.qualname not in self.scope:
+                    continue
+                for ev in self.esc.get(g.qualname, {}).values():
+                    ch = ev.chain
+                    if len(ch) < self.max_chain:
+                        ch = ch + (f.site(n),)
+                    out.append(Event(ev.exc, ev.func, ev.construct, ev.site, ch))
             if isinstance(n, ast.Lambda):
                 # a lambda defined here runs when called by the consumer; treat as executed in place
                 pass
